@@ -6,8 +6,8 @@ TECH = "contract-based deductive verification (VC generation over go/ssa of the 
 
 CLAIMS = {
  "C01": dict(
-  text="every closure created by the compile functions of the arithmetic, bitwise, comparison, equality and unary operators and of variable reads (binary_ops.go, binary_relops.go, binary_eqlneq.go, unary_ops.go, identifier.go: about 890 closures) is proved to return the Go operator applied to its operands in the kind selected on its path, to call the operand closures once and in Go's order, to read the slot of the right frame / storage class / width, and to have no other effect; for all operand values and all environments. Returns that create no closure are checked against the same equation: returning an operand (x+0, x*1 ...: alias returns, per kind), returning the result of another compile function under contract (delegated returns: mulPow2, quoPow2, remPow2, exprZero, UnaryMinus), and the power-of-two rewrites themselves (x*2^k as shift, x/2^k and x%2^k with the sign fix-ups, case-split over the 64 exponents for wide kinds); integerLen is verified as a function; the shift operators (binary_shifts.go, 66 closures): x << y and x >> y in the kind of x with Go's rule for counts not below the width, for the three shapes (both operands computed, constant count, constant left operand), the count function called once and after the left operand, a constant count of zero handing the left operand back",
-  note="trusted: reflect.Value accessor specs, xreflect.Type.Kind purity, environment invariant (FileEnv), operand well-formedness, go/ssa front end, SMT solvers. assumed: contract of isLiteralNumber, constants are never negative zero, the Value of a constant has the kind of its Type, compile functions only allocate. Not covered: the shift count function Expr.AsUint64 (negative count panics) and prepareShift, &&/||, interface comparisons, dispatch, composition over expression trees (paper induction)",
+  text="every closure created by the compile functions of the arithmetic, bitwise, comparison, equality and unary operators and of variable reads (binary_ops.go, binary_relops.go, binary_eqlneq.go, unary_ops.go, identifier.go: about 890 closures) is proved to return the Go operator applied to its operands in the kind selected on its path, to call the operand closures once and in Go's order, to read the slot of the right frame / storage class / width, and to have no other effect; for all operand values and all environments. Returns that create no closure are checked against the same equation: returning an operand (x+0, x*1 ...: alias returns, per kind), returning the result of another compile function under contract (delegated returns: mulPow2, quoPow2, remPow2, exprZero, UnaryMinus), and the power-of-two rewrites themselves (x*2^k as shift, x/2^k and x%2^k with the sign fix-ups, case-split over the 64 exponents for wide kinds); integerLen is verified as a function; the shift operators (binary_shifts.go, 66 closures): x << y and x >> y in the kind of x with Go's rule for counts not below the width, for the three shapes (both operands computed, constant count, constant left operand), the count function called once and after the left operand, a constant count of zero handing the left operand back; the count function (Expr.AsUint64): uint64 of the count, evaluated once, panicking exactly for a negative count of a signed kind",
+  note="trusted: reflect.Value accessor specs, xreflect.Type.Kind purity, environment invariant (FileEnv), operand well-formedness, go/ssa front end, SMT solvers. assumed: contract of isLiteralNumber, constants are never negative zero, the Value of a constant has the kind of its Type, compile functions only allocate. Not covered: prepareShift, count functions over reflect.Value operands, &&/||, interface comparisons, dispatch, composition over expression trees (paper induction)",
   ref="DESIGN.md section 5 C01, section 4"),
  "C02": dict(
   text="every closure created by the compile functions of assignment and compound assignment to a variable (var_set.go, var_ops.go: varSetConst, varSetExpr, var{Add,Sub,Mul,Quo,Rem,And,Or,Xor,Andnot}{Const,Expr}; about 5400 obligations) is proved to store Go's result of the operation, in the variable's kind, into the slot of the right frame / storage class / width, to evaluate the right-hand side exactly once, to return the next statement, and to leave every other slot, frame and heap cell unchanged; for all values and all environments; a compile function that returns no statement (x += 0, x *= 1 ...) or another compile function's statement (x /= -1 -> x *= -1) is checked against the same equation, per kind and storage class",
